@@ -386,6 +386,7 @@ class OverrideAction:
 class CreatorAction:
     '''Override action that, the first time it is invoked (the scheduler's start-up during the one-time initialisation
     of the assets), creates further assets: an asset created from inside another asset's initialize().'''
+    _canon_skip = ('world',)
 
     def __init__(self, world, late_indices):
         self.world = world
